@@ -181,6 +181,18 @@ const LITERAL_PLACES: [(&str, &str); 9] = [
     ("match-arm-result", "fn main() -> unit { let a: [T; 2] = match 0 { 0 => §, _ => § }; let _ = a; string_println(\"x\") }"),
     ("closure-argument", "fn main() -> unit { let f = |a: [T; 2]| 0; let _ = f(§); string_println(\"x\") }"),
 ];
+/// names no struct of the program has as a field (one of them is the word the editor queries insert at the cursor)
+const UNKNOWN_FIELD_NAMES: [&str; 6] = ["y", "completion_placeholder", "a0", "self", "A", "to_string"];
+/// (place, program with § for the field name)
+const UNKNOWN_FIELD_PLACES: [(&str, &str); 7] = [
+    ("read", "fn main() { let p = P { a: 1 }; let q = p.§; string_println(\"x\") }"),
+    ("read-and-used", "fn main() { let p = P { a: 1 }; string_println(int32_to_string(p.§)) }"),
+    ("read-through-a-field", "struct W2 { inner: P }\nfn main() { let w = W2 { inner: P { a: 1 } }; let q = w.inner.§; string_println(\"x\") }"),
+    ("read-on-a-generic-struct", "struct Bq[T] { v: T }\nfn main() { let b = Bq { v: 1 }; let q = b.§; string_println(\"x\") }"),
+    ("read-on-a-parameter", "fn f(p: P) -> unit { let q = p.§; () }\nfn main() { f(P { a: 1 }); string_println(\"x\") }"),
+    ("struct-pattern", "fn main() { let p = P { a: 1 }; let r = match p { P { §: k } => 1 }; string_println(int32_to_string(r)) }"),
+    ("struct-literal", "fn main() { let p = P { a: 1, §: 2 }; string_println(\"x\") }"),
+];
 /// a trait call on a type-parameter receiver without the bound: how the receiver is reached
 const MISSING_BOUND_ROUTES: [(&str, &str); 5] = [
     ("directly", "fn render[T](x: T) -> string { Dsp::sw(x, 1) }"),
@@ -281,7 +293,7 @@ impl Family for IllTyped {
         &["C03", "C04", "C10", "C07", "C02"]
     }
     fn rule(&self) -> &'static str {
-        "30 typed positions (operator operands, annotated let, parameters, conditions, return position, struct field, constructor payload, array element/index/set, ref_set, vec_push, branches, closure/method/generic arguments, the argument of a trait method called in path / dot form on a concrete receiver and on a type-parameter receiver whose type is known at the call or only after a generic call / through a closure parameter / through a field of a generic struct) x 10 expressions of different types (the well-typed one must be accepted, the other nine rejected by the typer); 32 structural errors (a field / method result / pattern variable of a generic struct or enum used at the type of another of its parameters, inside a generic function whose parameters carry the struct's parameter names in another order; array length in annotation/param/return, unknown/missing/extra field, call and constructor arity, tuple projection range, pattern arity/type, calling a non-function, unknown type/variant; a trait method called in path form with too many / too few arguments, without the bound, under another bound, with no impl for the receiver - the receiver reached directly, through a generic call, a closure parameter, a field); literal patterns: 4 literal kinds x 10 scrutinee types x 6 positions (directly; under a generic constructor, in a tuple from a generic call, on a closure parameter, on a let-bound generic result - the scrutinee's type still being inferred; against a rigid type parameter): rejected unless the literal's kind is the type's; written types: 24 spellings (6 well-formed; unknown names bare and under Vec / Ref / array / tuple / function types / a generic struct, a generic struct with no / too many arguments also under Vec, arguments given to a non-generic struct or a builtin, dyn of a missing trait / of a struct, the enclosing function's type parameter and one that is nobody's) x 16 places a type can be written (parameter, result, struct field, enum payload, let annotation in main / in an unused function / in a closure / in a match arm / on a tuple pattern / in a generic function, closure parameter plain / nested / second, method parameter, trait method parameter, extern parameter): accepted iff well-formed; operator domain: 12 binary + 2 unary operators x 13 operand types, written directly and inside a generic function instantiated at the type (accepted iff inside the documented domain). non-trivial = ill-typed variants; distinct = distinct source text; plus literal patterns at the edge of every integer type (the largest value, one past it, twice past it) x the 6 places a scrutinee type is learned x 8 types: past the largest value must be rejected (also reported under C10); plus array lengths written in a signature (3 = the value's length, 2, 0, 4, 2^63-1, 2^64-1 - the compiler's own any-length marker -, 2^64) x 6 nestings (bare, in a Ref / tuple / Vec / generic enum, array of arrays) x called directly / through a closure: only 3 is accepted, every case terminates; plus array literals of 1, 2, 3 elements checked against a written [E; 2] for 8 element kinds (int32, string, dyn, tuple / array / struct holding a dyn, generic struct, function) in 9 places (let annotation, argument, result, struct field, tuple component, inner array, branch result, match-arm result, closure result): only 2 elements are accepted; plus a trait call on a type-parameter receiver without the bound: 5 routes to the receiver x 7 neighbours that do have the bound (none, another function with the same / another parameter name before or after, the same name bounded by another trait, a method, the function's own second parameter) x instantiated at a type with / without an impl: all rejected (also reported under C07); plus all 512 containment graphs on three structs (an edge = a field holding the other struct by value) x 6 orders of declaration x 4 kinds of field (the struct, a tuple, an array, a generic instance holding it): accepted iff acyclic, and the accepted ones must be valid Go and print the sum (quick: direct fields in all 6 orders, the other kinds in 2)"
+        "30 typed positions (operator operands, annotated let, parameters, conditions, return position, struct field, constructor payload, array element/index/set, ref_set, vec_push, branches, closure/method/generic arguments, the argument of a trait method called in path / dot form on a concrete receiver and on a type-parameter receiver whose type is known at the call or only after a generic call / through a closure parameter / through a field of a generic struct) x 10 expressions of different types (the well-typed one must be accepted, the other nine rejected by the typer); 32 structural errors (a field / method result / pattern variable of a generic struct or enum used at the type of another of its parameters, inside a generic function whose parameters carry the struct's parameter names in another order; array length in annotation/param/return, unknown/missing/extra field, call and constructor arity, tuple projection range, pattern arity/type, calling a non-function, unknown type/variant; a trait method called in path form with too many / too few arguments, without the bound, under another bound, with no impl for the receiver - the receiver reached directly, through a generic call, a closure parameter, a field); literal patterns: 4 literal kinds x 10 scrutinee types x 6 positions (directly; under a generic constructor, in a tuple from a generic call, on a closure parameter, on a let-bound generic result - the scrutinee's type still being inferred; against a rigid type parameter): rejected unless the literal's kind is the type's; written types: 24 spellings (6 well-formed; unknown names bare and under Vec / Ref / array / tuple / function types / a generic struct, a generic struct with no / too many arguments also under Vec, arguments given to a non-generic struct or a builtin, dyn of a missing trait / of a struct, the enclosing function's type parameter and one that is nobody's) x 16 places a type can be written (parameter, result, struct field, enum payload, let annotation in main / in an unused function / in a closure / in a match arm / on a tuple pattern / in a generic function, closure parameter plain / nested / second, method parameter, trait method parameter, extern parameter): accepted iff well-formed; operator domain: 12 binary + 2 unary operators x 13 operand types, written directly and inside a generic function instantiated at the type (accepted iff inside the documented domain). non-trivial = ill-typed variants; distinct = distinct source text; plus literal patterns at the edge of every integer type (the largest value, one past it, twice past it) x the 6 places a scrutinee type is learned x 8 types: past the largest value must be rejected (also reported under C10); plus array lengths written in a signature (3 = the value's length, 2, 0, 4, 2^63-1, 2^64-1 - the compiler's own any-length marker -, 2^64) x 6 nestings (bare, in a Ref / tuple / Vec / generic enum, array of arrays) x called directly / through a closure: only 3 is accepted, every case terminates; plus array literals of 1, 2, 3 elements checked against a written [E; 2] for 8 element kinds (int32, string, dyn, tuple / array / struct holding a dyn, generic struct, function) in 9 places (let annotation, argument, result, struct field, tuple component, inner array, branch result, match-arm result, closure result): only 2 elements are accepted; plus a trait call on a type-parameter receiver without the bound: 5 routes to the receiver x 7 neighbours that do have the bound (none, another function with the same / another parameter name before or after, the same name bounded by another trait, a method, the function's own second parameter) x instantiated at a type with / without an impl: all rejected (also reported under C07); plus all 512 containment graphs on three structs (an edge = a field holding the other struct by value) x 6 orders of declaration x 4 kinds of field (the struct, a tuple, an array, a generic instance holding it): accepted iff acyclic, and the accepted ones must be valid Go and print the sum (quick: direct fields in all 6 orders, the other kinds in 2); plus 6 names no struct has as a field (among them the word the editor queries insert at the cursor) x 7 places a field name is written (read, read and used, through a field, on a generic struct, on a parameter, struct pattern, struct literal): all rejected"
     }
     fn cases(&self, tier: Tier) -> Box<dyn Iterator<Item = Value> + '_> {
         let mut v = Vec::new();
@@ -326,6 +338,11 @@ impl Family for IllTyped {
                     }
                     v.push(json!({"kind": "struct-graph", "mask": mask, "perm": perm, "edge": kind}));
                 }
+            }
+        }
+        for n in UNKNOWN_FIELD_NAMES {
+            for (pl, _) in UNKNOWN_FIELD_PLACES {
+                v.push(json!({"kind": "unknown-field", "name": n, "place": pl}));
             }
         }
         // a trait call without the bound, next to other items that have it
@@ -450,6 +467,11 @@ impl Family for IllTyped {
                 }
                 let acyclic = left.is_empty();
                 (text, acyclic, format!("struct-graph;edge-kind={};acyclic={};edges={}", kind, acyclic, mask.count_ones()))
+            }
+            "unknown-field" => {
+                let (n, pl) = (case["name"].as_str().unwrap(), case["place"].as_str().unwrap());
+                let (_, tmpl) = UNKNOWN_FIELD_PLACES.iter().find(|(k, _)| *k == pl).unwrap();
+                (format!("{}{}\n", PRELUDE, tmpl.replace('§', n)), false, format!("unknown-field;name={};place={}", n, pl))
             }
             "missing-bound" => {
                 let (r, nb, at) = (case["route"].as_str().unwrap(), case["neighbour"].as_str().unwrap(), case["at"].as_str().unwrap());
